@@ -24,12 +24,13 @@ EXTENDS ManifestManager, Json
 VARIABLES l,        \* number of trace lines consumed
           sends,    \* sends[r]: replies the manager WROTE to request r (reply hooks)
           missing,  \* requests whose Submit call had not returned although a reply was due (last step)
+          held,     \* leases the provider holds according to the STIMULI (won, not removed, manager alive)
           drift,    \* number of non-conforming steps
           viol      \* set of <<line, property name>>
 
 Log == ndJsonDeserialize("trace.ndjson")
 
-tvars == <<vars, l, sends, missing, drift, viol>>
+tvars == <<vars, l, sends, missing, held, drift, viol>>
 
 ToReqs(x) == [i \in 1..Len(x) |-> [r |-> x[i][1], mf |-> x[i][2]]]
 ToAnn(x)  == [i \in 1..Len(x) |-> [lease |-> x[i][1], mf |-> x[i][2]]]
@@ -47,6 +48,7 @@ ObsState(rec) ==
 \* the action of the specification that the stimulus stands for
 SpecStep(rec) ==
   \/ rec.name = "LeaseWon" /\ LeaseWon(rec.arg)
+  \/ rec.name = "PreLease" /\ LeaseWon(rec.arg)   \* a lease held at start-up (fetchExistingLeases): same loop case
   \/ rec.name = "Submit" /\ Submit(rec.arg)
   \/ rec.name = "Update" /\ Update(rec.arg)
   \/ rec.name = "LeaseRemoved" /\ LeaseRemoved(rec.arg)
@@ -88,6 +90,15 @@ Forced(rec) ==
 (* Verdict: the property definitions of ManifestManager.tla on observed values, plus their counterparts on the   *)
 (* replies as written (a second write to a request is "replying twice" even if the submitter never sees it).   *)
 
+\* "holds a lease" judged against the stimuli, not against the manager's own list
+HeldNext(rec) ==
+  IF rec.name \in {"LeaseWon", "PreLease"} /\ svc = "run" /\ mgr # "stopping" THEN (IF mgr = "run" THEN held ELSE {}) \cup {rec.arg}
+  ELSE IF rec.name = "LeaseRemoved" /\ mgr = "run" THEN held \ {rec.arg}
+  ELSE IF rec.name \in {"DeploymentClosed", "Shutdown"} THEN {}
+  ELSE IF rec.name = "Submit" /\ svc = "run" /\ mgr = "none" THEN {}
+  ELSE held
+AnnounceToHeld == \A i \in 1..Len(ann) : ann[i].lease \in held
+
 SendsAtMostOne == \A r \in Reqs : Len(sends[r]) <= 1
 NoHang == missing = <<>>
 
@@ -95,12 +106,13 @@ Failing ==
      (IF AtMostOneReply THEN {} ELSE {"AtMostOneReply"})
   \cup (IF SendsAtMostOne THEN {} ELSE {"SendsAtMostOne"})
   \cup (IF AnnounceOK THEN {} ELSE {"AnnounceOK"})
+  \cup (IF AnnounceToHeld THEN {} ELSE {"AnnounceToHeld"})
   \cup (IF QuiescentAllReplied THEN {} ELSE {"QuiescentAllReplied"})
   \cup (IF NoHang THEN {} ELSE {"NoHang"})
 
 TraceInit ==
   /\ Init
-  /\ l = 0 /\ sends = EmptyR /\ missing = <<>> /\ drift = 0 /\ viol = {}
+  /\ l = 0 /\ sends = EmptyR /\ missing = <<>> /\ held = {} /\ drift = 0 /\ viol = {}
 
 Reset ==
   /\ svc' = "run" /\ mgr' = "none"
@@ -110,7 +122,7 @@ Reset ==
   /\ ann' = <<>> /\ validated' = {} /\ lastValid' = 0
   /\ cnt' = [lw |-> 0, rm |-> 0, upd |-> 0, ferr |-> 0, close |-> 0, drop |-> 0]
   /\ act' = [name |-> "Init", arg |-> 0]
-  /\ sends' = EmptyR /\ missing' = <<>>
+  /\ sends' = EmptyR /\ missing' = <<>> /\ held' = {}
   /\ UNCHANGED <<drift, viol>>
 
 TraceNext ==
@@ -120,15 +132,16 @@ TraceNext ==
        IF rec.e = "reset" THEN Reset
        ELSE /\ sends' = AddReplies(sends, rec.sends)
             /\ missing' = rec.missing
+            /\ held' = HeldNext(rec)
             /\ \/ Conform(rec) /\ drift' = drift
                \/ /\ ~ENABLED Conform(rec)
                   /\ Forced(rec)
                   /\ drift' = drift + 1
-                  /\ PrintT(<<"DRIFT", l + 1, rec.script, rec.i, rec.name, rec.arg>>)
+                  /\ PrintT("DRIFT " \o ToJson([line |-> l + 1, script |-> rec.script, i |-> rec.i]))
             /\ viol' = viol \cup {<<l + 1, p>> : p \in Failing'}
 
 TraceSpec == TraceInit /\ [][TraceNext]_tvars
 
 \* reported once, in the last state
-Done == l = Len(Log) => PrintT(<<"TRACE-DONE", l, drift, viol>>)
+Done == l = Len(Log) => PrintT("TRACE-DONE " \o ToJson([l |-> l, drift |-> drift, viol |-> viol]))
 =============================================================================
